@@ -251,6 +251,24 @@ def _loaded(v):
     return v.load() if isinstance(v, Ref) else v
 
 
+class _InPlace:
+    """container adaptor: slot 0 is an ADT value reached through a reference (aggregates are shared by identity): a store
+    overwrites the referenced value in place, so that every holder of the reference sees it"""
+    def __init__(self, obj):
+        self.obj = obj
+
+    def __getitem__(self, _k):
+        return self.obj
+
+    def __setitem__(self, _k, v):
+        if isinstance(v, dict) and v is not self.obj:
+            new = dict(v)
+            self.obj.clear()
+            self.obj.update(new)
+        elif not isinstance(v, dict):
+            raise Undecidable("store of a non-ADT value through a reference to an ADT value")
+
+
 class _FieldSlot:
     """container adaptor: slot 0 is the field `name` (index idx) of an ADT value, kept consistent under both keys"""
     def __init__(self, obj, name, idx):
@@ -662,6 +680,8 @@ class Folder:
             v = self.fold(e["arg"])
             if isinstance(v, Ref):
                 return v.c, v.k
+            if isinstance(v, dict) and "__variant__" in v and strip(e["arg"]).get("ty", "").startswith("&mut"):
+                return _InPlace(v), 0
             # a reference parameter bound directly to its value (legacy binding): the variable itself is the slot
             return self._place(e["arg"])
         if k == "Field":
@@ -1152,7 +1172,7 @@ class Folder:
                 raise Trap("unwrap/expect on %s at %s" % (v["__variant__"], span_str(e["span"])))
             return NotImplemented
         if last in ("find", "position", "any", "all", "map", "filter", "rev", "len", "count", "skip", "take", "last", "next_back",
-                    "contains", "first", "nth", "enumerate", "is_empty", "get", "find_map", "step_by", "zip", "chain", "collect", "sum", "cycle"):
+                    "contains", "first", "nth", "enumerate", "is_empty", "get", "find_map", "step_by", "zip", "chain", "collect", "sum", "cycle", "fold"):
             v = self.fold(a[0])
             seq = self._iterable(v)
             if seq is None:
@@ -1167,6 +1187,11 @@ class Folder:
                 return [_loaded(x) for x in seq]
             if last == "sum" and len(a) == 1 and all(isinstance(_loaded(x), int) for x in seq):
                 return sum(_loaded(x) for x in seq)
+            if last == "sum" and len(a) == 1 and self.local_calls > 0:
+                # a crate type's own `impl Sum`: chosen by the result type of the call
+                impl = "<%s as core::iter::Sum>::sum" % e.get("ty")
+                if impl in self.facts.thir:
+                    return self._apply_fn_item(impl, [[_loaded(x) for x in seq]])
             if last == "rev" and len(a) == 1:
                 return list(reversed(seq))
             if last == "enumerate" and len(a) == 1:
@@ -1175,7 +1200,7 @@ class Folder:
                 return opt(seq[-1]) if seq else opt(None, False)
             if last == "first" and len(a) == 1:
                 return opt(seq[0]) if seq else opt(None, False)
-            if len(a) != 2:
+            if len(a) != 2 and not (last == "fold" and len(a) == 3):
                 return NotImplemented
             arg = self.fold(a[1])
             if last in ("skip", "take") and isinstance(arg, int):
@@ -1204,6 +1229,13 @@ class Folder:
                 return opt(list(seq[lo:hi])) if 0 <= lo <= hi <= len(seq) else opt(None, False)
             if last == "contains":
                 return arg in seq
+            if last == "fold" and len(a) == 3:
+                cl = self.fold(a[2])
+                if isinstance(cl, dict) and ("__closure__" in cl or "__fn__" in cl):
+                    acc = arg
+                    for x in seq:
+                        acc = self.apply_closure(cl, [acc, _loaded(x)])
+                    return acc
             if isinstance(arg, dict) and ("__closure__" in arg or "__fn__" in arg):
                 if last == "find":
                     for x in seq:
@@ -1377,14 +1409,21 @@ class Folder:
                 if acc is False:
                     return False
             return acc
+        if isinstance(a, dict) and isinstance(b, dict) and "__variant__" in a and "__variant__" in b:
+            if a["__variant__"] != b["__variant__"]:
+                return False
+            acc = True
+            for k0 in sorted(k1 for k1 in a if k1.startswith("#")):
+                acc = s_and(acc, self._opaque_eq(a[k0], b.get(k0)))
+                if acc is False:
+                    return False
+            return acc
         if isinstance(a, Token) and isinstance(b, Token) and str(a) == str(b):
             return True
-        if isinstance(a, Token) or isinstance(b, Token):
-            if self.sym_eq is not None and self.sym_eq(a, b):
-                return Sym(("atom", a, b))
-            raise Undecidable("comparison of an opaque value")
-        if isinstance(a, (int, bool, str)) and isinstance(b, (int, bool, str)):
+        if isinstance(a, (int, bool, str)) and isinstance(b, (int, bool, str)) and not isinstance(a, Token) and not isinstance(b, Token):
             return a == b
+        if self.sym_eq is not None and self.sym_eq(a, b):
+            return Sym(("atom", a, b))
         raise Undecidable("comparison of an opaque value")
 
     def _sym_branch(self, e, c):
